@@ -171,6 +171,7 @@ func (t *Tokenizer) Reset() {
 	t.posCacheColumn = 0
 	t.codeScanIndex = 0
 	t.codeScanFound = false
+	t.tokenStart = 0
 
 	// Don't reset keywords as they're constant
 	t.logger = nil
